@@ -27,6 +27,7 @@ def run(ctx):
     r93(ctx, api)
     r94(ctx, wr)
     ar.fresh_part_rule(ctx, 'R9.5')
+    ar.index_normalisation_rule(ctx, 'R9.6')
     r96(ctx, api)
     r97(ctx, wr)
     from . import callsigs as _cs
@@ -132,7 +133,14 @@ def r92(ctx, api):
     rgm = api.func('row_groups_map')
     ctx.ob('R9.2', 'api.row_groups_map:keyed-by-the-row-group-file', 'file = rg.columns[0].file_path' in src(rgm)
            and 'files_rgs[file].append(rg)' in src(rgm), '', api.loc(rgm))
-    meta_rules.rowcount_rule(ctx, 'R9.2', only_modules={'api'})
+    meta_rules.rowcount_rule(ctx, 'R9.2', only_modules={'api', 'writer', 'util'})
+    from . import c08
+    c08.r85(ctx)
+    w = api.func('ParquetFile.write_row_groups')
+    last = [s for s in w.body if not isinstance(s, ast.Pass)]
+    ctx.ob('R9.2', 'api.write_row_groups:handle-rebuilt-after-the-append', bool(last) and norm(last[-1]) == 'self._set_attrs()',
+           'after new row groups (and possibly new partition values) were added the handle\'s derived state (row_groups, cats, '
+           'file_scheme, dtypes) must be rebuilt: last statement is `%s`' % (norm(last[-1])[:60] if last else '?'), api.loc(w))
     n = meta_rules.filepath_rule(ctx, 'R9.2', only={'api'})
     # the row group whose path is stored is the one whose file was renamed
     g = api.func('ParquetFile._sort_part_names')
